@@ -18,7 +18,7 @@ VERIF = os.path.dirname(os.path.dirname(os.path.abspath(__file__)))
 DRIVER = os.path.join(VERIF, 'driver', 'instantiate.cpp')
 CACHE = os.path.join(VERIF, '.cache')
 MPI_INC = '/usr/lib/x86_64-linux-gnu/openmpi/include'
-CACHE_VERSION = 17
+CACHE_VERSION = 18
 
 
 class AnalysisBroken(Exception):
@@ -47,7 +47,12 @@ def tree_hash(repo, extra=''):
 
 
 def field_kind(t):
-    t = (t or '').replace('const ', '').strip(' &*')
+    """kind of a member type: N (unsigned integer), T (floating point), S (string), V<kind> (vector),
+    the class name for hep:: classes (so that members of different class types are told apart when
+    their declaration order changes), O for anything else (functors, engines, enums ...)"""
+    t0 = (t or '')
+    ptr = t0.strip().endswith('*')
+    t = t0.replace('const ', '').strip(' &*')
     if t.startswith('std::vector<') and t.endswith('>'):
         return 'V<%s>' % field_kind(t[len('std::vector<'):-1])
     if t in ('unsigned long', 'std::size_t', 'size_t', 'unsigned int', 'unsigned long long'):
@@ -56,36 +61,40 @@ def field_kind(t):
         return 'T'
     if 'basic_string' in t or t == 'std::string':
         return 'S'
+    base = t.split('<')[0].replace('hep::', '')
+    if base in ('distribution_parameters', 'distribution_result', 'mc_result', 'plain_result', 'vegas_pdf',
+                'vegas_result', 'multi_channel_result', 'accumulator', 'mc_point', 'callback', 'callback_mode'):
+        return base + ('*' if ptr else '')
     return 'O'
 
 
 # data members as named in the tree the rules were written against: (name, kind of type), in
 # declaration order
 CANON_FIELDS = {
-    'hep::integrand': [('function_', 'O'), ('parameters_', 'V<O>'), ('dimensions_', 'N')],
-    'hep::accumulator': [('parameters_', 'V<O>'), ('indices_', 'V<N>'), ('sums_', 'V<T>'), ('compensations_', 'V<T>'),
+    'hep::integrand': [('function_', 'O'), ('parameters_', 'V<distribution_parameters>'), ('dimensions_', 'N')],
+    'hep::accumulator': [('parameters_', 'V<distribution_parameters>'), ('indices_', 'V<N>'), ('sums_', 'V<T>'), ('compensations_', 'V<T>'),
                          ('non_zero_calls_', 'V<N>'), ('finite_calls_', 'V<N>')],
     'hep::mc_result': [('calls_', 'N'), ('non_zero_calls_', 'N'), ('finite_calls_', 'N'), ('sum_', 'T'),
                        ('sum_of_squares_', 'T')],
-    'hep::plain_result': [('distributions_', 'V<O>')],
-    'hep::vegas_result': [('pdf_', 'O'), ('adjustment_data_', 'V<T>')],
+    'hep::plain_result': [('distributions_', 'V<distribution_result>')],
+    'hep::vegas_result': [('pdf_', 'vegas_pdf'), ('adjustment_data_', 'V<T>')],
     'hep::multi_channel_result': [('adjustment_data_', 'V<T>'), ('channel_weights_', 'V<T>')],
     'hep::distribution_parameters': [('bins_x_', 'N'), ('bins_y_', 'N'), ('x_min_', 'T'), ('y_min_', 'T'),
                                      ('bin_size_x_', 'T'), ('bin_size_y_', 'T'), ('name_', 'S')],
-    'hep::distribution_result': [('parameters_', 'O'), ('results_', 'V<O>')],
+    'hep::distribution_result': [('parameters_', 'distribution_parameters'), ('results_', 'V<mc_result>')],
     'hep::vegas_pdf': [('x', 'V<T>'), ('bins_', 'N'), ('dimensions_', 'N')],
     'hep::mc_point': [('weight_', 'T'), ('point_', 'V<T>')],
     'hep::vegas_point': [('bin_', 'V<N>')],
     'hep::multi_channel_point': [('channel_', 'N'), ('coordinates_', 'V<T>')],
     'hep::multi_channel_point2': [('densities_', 'V<T>'), ('channel_weights_', 'V<T>'), ('enabled_channels_', 'V<N>'),
                                   ('map_', 'O')],
-    'hep::projector': [('accumulator_', 'O'), ('point_', 'O')],
+    'hep::projector': [('accumulator_', 'accumulator*'), ('point_', 'mc_point')],
     'hep::chkpt': [('results_', 'V<O>')],
-    'hep::vegas_chkpt': [('alpha_', 'T'), ('bins_', 'N'), ('pdf_', 'V<O>')],
+    'hep::vegas_chkpt': [('alpha_', 'T'), ('bins_', 'N'), ('pdf_', 'V<vegas_pdf>')],
     'hep::multi_channel_chkpt': [('beta_', 'T'), ('min_weight_', 'T'), ('first_channel_weights_', 'V<T>')],
     'hep::chkpt_with_rng': [('generators_', 'V<O>')],
-    'hep::callback': [('mode_', 'O'), ('filename_', 'S'), ('target_rel_err_', 'T')],
-    'hep::mpi_callback': [('callback_', 'O')],
+    'hep::callback': [('mode_', 'callback_mode'), ('filename_', 'S'), ('target_rel_err_', 'T')],
+    'hep::mpi_callback': [('callback_', 'callback')],
     'hep::multi_channel_weight_info': [('channels_', 'V<N>'), ('weights_', 'V<T>'), ('calls_', 'V<N>'),
                                        ('minimal_weight_count_', 'N')],
     'hep::discrete_distribution': [('weight_sums', 'V<T>')],
@@ -446,13 +455,16 @@ class Builder:
             if len(uf) != len(uc) or len(r.fields) != len(canon):
                 continue
             pairs = None
-            if all(field_kind(f['type']) == c[1] for f, c in zip(uf, uc)):
+            kf = [field_kind(f['type']) for f in uf]
+            kc = [c[1] for c in uc]
+            def km(k_, c_):
+                return k_ == c_ or c_ == 'O' or (c_ == 'V<O>' and k_.startswith('V<'))
+            cand = [[j for j, c_ in enumerate(kc) if km(k_, c_)] for k_ in kf]
+            if all(len(x) == 1 for x in cand) and len(set(x[0] for x in cand)) == len(kf):
+                # every renamed member matches exactly one reference member by kind (order-independent)
+                pairs = [(f, uc[x[0]]) for f, x in zip(uf, cand)]
+            elif all(km(a_, b_) for a_, b_ in zip(kf, kc)):
                 pairs = list(zip(uf, uc))
-            else:
-                kf = [field_kind(f['type']) for f in uf]
-                kc = [c[1] for c in uc]
-                if sorted(kf) == sorted(kc) and len(set(kf)) == len(kf):
-                    pairs = [(f, uc[kc.index(field_kind(f['type']))]) for f in uf]
             if pairs is None:
                 continue
             for f, c in pairs:
